@@ -722,6 +722,10 @@ Definition gen_tables_ok : bool :=
     [OpEq; OpNe; OpGt; OpLt; OpGe; OpLe; OpStartsWith; OpContains; OpNotContains; OpExists;
      OpNotExists; OpHasRoot; OpMatches; OpIn; OpNotIn] &&
   String.eqb num_descendants (computed_prefix ++ "NUM_DESCENDANTS") &&
+  String.eqb compare_float_int_text
+    "switch { case f != f: return equal case f >= 1<<63: return more case f < -(1 << 63): return less } whole := math.Trunc(f) switch n := int64(whole); { case n < i: return less case n > i: return more } switch { case f < whole: return less case f > whole: return more } return equal" &&
+  strs_eqb compare_float_arms
+    ["case float64: switch bt := b.(type) { case int: return compareFloatToInt(at, int64(bt)), true case int64: return compareFloatToInt(at, bt), true"] &&
   String.eqb convert_to_string_text
     "if f, ok := v.(float64); ok && f == math.Trunc(f) && math.Abs(f) < 1<<63 { return strconv.FormatInt(int64(f), 10) } return fmt.Sprintf(""%v"", v)".
 
